@@ -12,6 +12,7 @@ MCImports == [c \in 0..20 |->
                   [] c = 5 -> { <<"q">>, <<"q", "b">> }
                   [] c = 6 -> { <<"a">> }
                   [] c = 8 -> { <<"b">> }
+                  [] c = 9 -> { <<"pkg">>, <<"pkg", "q">>, <<"pkg", "q", "b">> }
                   [] OTHER -> {}]
 
 C1 == MkTree({<<"pkg">>}, (<<"a">> :> 1) @@ (<<"b">> :> 2) @@ (<<"pkg","i">> :> 0) @@ (<<"pkg","b">> :> 4))
@@ -29,6 +30,7 @@ MCInitTreesC2 == {C4, C5}
 C7 == MkTree({}, (<<"a">> :> 1) @@ (<<"b">> :> 2))
 C8 == MkTree({<<"A">>}, (<<"a">> :> 4) @@ (<<"b">> :> 2))
 MCInitTreesC3 == {C7, C8}
+MCNoExclusive == {}
 MCExclusive == { << <<"a">>, <<"A", "i">> >> }
 MCUniverse3 == { <<"a">>, <<"b">>, <<"A">>, <<"A","i">> }
 \* two plain modules, one importing the other: repeated query / change / query histories
@@ -37,6 +39,13 @@ MCUniverse3 == { <<"a">>, <<"b">>, <<"A">>, <<"A","i">> }
 C9 == MkTree({}, (<<"a">> :> 8) @@ (<<"b">> :> 7))
 MCInitTreesC4 == {C7, C9}
 MCUniverse4 == { <<"a">>, <<"b">> }
+\* nested packages: a module two package levels down, reached through a dotted import chain
+\* 9: "import pkg.q.b; w = pkg.q.b.K()" ; 10: another class K (other methods, on another line).  Each
+\* package object on the chain holds the next one: all of them must be renewed when the inner one changes
+C10 == MkTree({<<"pkg">>, <<"pkg","q">>}, (<<"a">> :> 9) @@ (<<"pkg","i">> :> 0) @@ (<<"pkg","q","i">> :> 0)
+                                           @@ (<<"pkg","q","b">> :> 4))
+MCInitTreesC5 == {C10}
+MCUniverse5 == { <<"a">>, <<"pkg","q","b">>, <<"pkg","q">> }
 MCUniverse2 == { <<"a">>, <<"b">>, <<"pkg">>, <<"q">>, <<"pkg","b">>, <<"q","b">> }
 
 \* "t" is rendered as a non-Python file (t.txt): a module can be moved out of sight and back
